@@ -49,7 +49,7 @@ def linform(
             ):
                 v = defs[0].value
                 if isinstance(v, (ast.BinOp, ast.UnaryOp, ast.Name,
-                                  ast.Attribute, ast.Subscript)):
+                                  ast.Attribute, ast.Subscript, ast.Call)):
                     return linform(v, defs[0].node, rd, in_loop, depth + 1)
         if len(defs) == 1:
             return {tag(e.id, defs[0].node): 1}
